@@ -9,7 +9,6 @@ import (
 	"os"
 	"strconv"
 	"strings"
-	"syscall"
 	"time"
 
 	"verif/internal/hx"
@@ -734,13 +733,4 @@ func (s *sess) accesses(p *Probe, res uint32, resQid ref9p.Qid, resOpen bool, fs
 		}
 	}
 	return nil
-}
-
-// inodeOf is used by tests of the harness itself.
-func inodeOf(p string) uint64 {
-	fi, err := os.Lstat(p)
-	if err != nil {
-		return 0
-	}
-	return fi.Sys().(*syscall.Stat_t).Ino
 }
